@@ -27,6 +27,12 @@ class Recorder:
     def count(self, name, n=1):
         self.counters[name] = self.counters.get(name, 0) + n
 
+    def dump_log(self):
+        import os
+        if not os.environ.get('VERIF_LOG'):
+            return []
+        return [repr(e) for e in self.events]
+
     def of(self, kind, **match):
         out = []
         for e in self.events:
